@@ -19,22 +19,47 @@ Proof.
         intros j H1 H2. destruct (Nat.eq_dec j k) as [->|Hne]; [exact Eh|]. apply A2; lia.
 Qed.
 
-Lemma gm_hit_iff : forall N_min fl j, gm_hit N_min fl j = true <-> (nth j fl false = true /\ (N_min <= j)%nat).
+Lemma gm_hit_iff : forall N_min fl j,
+  gm_hit N_min fl j = true <-> (gm_below fl j = true /\ ((N_min <= j)%nat \/ gm_exh fl j = true)).
 Proof.
-  intros N_min fl j. unfold gm_hit. rewrite andb_true_iff, Nat.leb_le. tauto.
+  intros N_min fl j. unfold gm_hit. rewrite andb_true_iff, orb_true_iff, Nat.leb_le. tauto.
 Qed.
 
 Lemma gm_stop_rule : forall N_min N_max fl K cv, gm_inner N_min 0 N_max fl = (K, cv) ->
-  (cv = true -> (1 <= K <= N_max)%nat /\ nth (K - 1) fl false = true /\ (N_min <= K - 1)%nat /\
-                (forall j, (j < K - 1)%nat -> ~ (nth j fl false = true /\ (N_min <= j)%nat))) /\
-  (cv = false -> K = N_max /\ (forall j, (j < N_max)%nat -> ~ (nth j fl false = true /\ (N_min <= j)%nat))).
+  (cv = true -> (1 <= K <= N_max)%nat /\ gm_below fl (K - 1) = true /\
+                ((N_min <= K - 1)%nat \/ gm_exh fl (K - 1) = true) /\
+                (forall j, (j < K - 1)%nat ->
+                   ~ (gm_below fl j = true /\ ((N_min <= j)%nat \/ gm_exh fl j = true)))) /\
+  (cv = false -> K = N_max /\
+                 (forall j, (j < N_max)%nat ->
+                    ~ (gm_below fl j = true /\ ((N_min <= j)%nat \/ gm_exh fl j = true)))).
 Proof.
   intros N_min N_max fl K cv H. apply gm_inner_spec in H. destruct H as [Ht Hf]. split; intros E.
   - destruct (Ht E) as (A1 & A2 & A3 & A4). apply gm_hit_iff in A3. destruct A3 as [A3 A3'].
-    repeat split; try lia; try assumption.
+    split; [lia|]. split; [exact A3|]. split; [exact A3'|].
     intros j Hj Hc. apply gm_hit_iff in Hc. rewrite A4 in Hc; [discriminate|lia|exact Hj].
   - destruct (Hf E) as (A1 & A2). split; [lia|].
     intros j Hj Hc. apply gm_hit_iff in Hc. rewrite A2 in Hc; [discriminate|lia|lia].
+Qed.
+
+(* without exhaustion flags the rule is the plain one: first step k >= N_min below the tolerance *)
+Lemma gm_stop_rule_no_exhaustion : forall N_min fl k, gm_exh fl k = false ->
+  gm_hit N_min fl k = (gm_below fl k && (N_min <=? k)%nat).
+Proof. intros N_min fl k H. unfold gm_hit. rewrite H, orb_false_r. reflexivity. Qed.
+
+(* an exhausted step below the tolerance stops the cycle whatever N_min is *)
+Lemma gm_exhausted_stops : forall N_min N_max fl k, (k < N_max)%nat ->
+  gm_below fl k = true -> gm_exh fl k = true ->
+  (fst (gm_inner N_min 0 N_max fl) <= S k)%nat /\ snd (gm_inner N_min 0 N_max fl) = true.
+Proof.
+  intros N_min N_max fl k Hk Hb He. destruct (gm_inner N_min 0 N_max fl) as [K cv] eqn:E.
+  apply gm_inner_spec in E. destruct E as [Ht Hf]. cbn [fst snd].
+  assert (Hh : gm_hit N_min fl k = true) by (apply gm_hit_iff; split; [exact Hb|right; exact He]).
+  destruct cv.
+  - destruct (Ht eq_refl) as (A1 & A2 & A3 & A4). split; [|reflexivity].
+    destruct (Nat.le_gt_cases K (S k)) as [Hle|Hgt]; [exact Hle|].
+    rewrite A4 in Hh; [discriminate|lia|lia].
+  - destruct (Hf eq_refl) as (A1 & A2). rewrite A2 in Hh; [discriminate|lia|lia].
 Qed.
 
 (* ---- the cycles *)
